@@ -37,7 +37,7 @@ impl Hooks for Glue {
         });
     }
     fn before_len(&self) {
-        sched::point(OpKind::Len, 0, 0);
+        let _ = sched::point(OpKind::Len, 0, 0);
     }
     fn after_len(&self, len: Option<usize>) {
         sched::set_result(len.map(|x| x as i64).unwrap_or(-1), 0);
